@@ -503,6 +503,9 @@ func raceSolvers(script string, o *Obligation, timeoutMs int, first *Result, con
 		raw string
 		sec float64
 	}
+	if o.Kind == "cover" && timeoutMs > 10000 {
+		timeoutMs = 10000 // a vacuity cover asks every solver; none of them gets longer than this
+	}
 	ctx, cancel := context.WithTimeout(context.Background(), time.Duration(timeoutMs+5000)*time.Millisecond)
 	defer cancel()
 	ch := make(chan res, len(solvers))
@@ -533,13 +536,26 @@ func raceSolvers(script string, o *Obligation, timeoutMs int, first *Result, con
 		return best
 	}
 	proved := 0
+	families := map[string]bool{}
 	var provers []string
+	var confirmDeadline <-chan time.Time
 	for range solvers {
-		r := <-ch
+		var r res
+		select {
+		case r = <-ch:
+		case <-confirmDeadline:
+			// one solver proved the goal; the second opinion did not arrive within the grace period
+			best.Solver = strings.Join(provers, "+")
+			return best
+		}
 		st := statusOf(r.ans, o.Expect)
 		switch st {
 		case "proved":
-			proved++
+			fam := strings.TrimSuffix(r.s.Name, "-inc")
+			if !families[fam] {
+				families[fam] = true
+				proved++ // a second opinion counts only when it comes from another solver binary
+			}
 			provers = append(provers, r.s.Name)
 			if best.Status != "proved" {
 				best = &Result{O: o, Status: "proved", Solver: r.s.Name, Seconds: r.sec}
@@ -547,6 +563,9 @@ func raceSolvers(script string, o *Obligation, timeoutMs int, first *Result, con
 			if !confirm || proved >= 2 {
 				best.Solver = strings.Join(provers, "+")
 				return best
+			}
+			if confirmDeadline == nil {
+				confirmDeadline = time.After(6 * time.Second)
 			}
 		case "failed":
 			if best.Status == "unknown" {
